@@ -73,6 +73,7 @@ a regular expression, so the synchronization above could also be achieved with:
 
     dst_job.sync(src_job, doc_sync=sync.DocSync.ByKey('foo'))
 """
+import errno
 import logging
 import os
 import re
@@ -322,6 +323,13 @@ class _FileModifyProxy:
     def copytree(self, src, dst, **kwargs):
         """Copy tree src to dst."""
         logger.more(f"Copy tree '{_safe_relpath(src)}' -> '{_safe_relpath(dst)}'.")
+        if self.dry_run:
+            # Create nothing; fail like a real run would.
+            if os.path.lexists(dst):
+                raise FileExistsError(errno.EEXIST, os.strerror(errno.EEXIST), dst)
+            if not os.path.isdir(src):
+                raise FileNotFoundError(errno.ENOENT, os.strerror(errno.ENOENT), src)
+            return
         shutil.copytree(src, dst, copy_function=self.copy, **kwargs)
 
     @contextmanager
